@@ -221,9 +221,21 @@ def check_sampling(rec, option, kind, policy, K, n_req, tmax_mode="symbolic", va
             rec.oblig("sampling disabled: the policy records nothing", "holds" if ok else "violated", rec_steps, 0, desc)
             if not ok:
                 rec.violation("sampling-disabled-records", "records were taken although sampling is disabled (%s)" % desc, {"structure": desc})
-        # manual sample calls: one extra record per iteration at most, times never decrease
+        # explicit sample() calls: each records exactly one state, unless the step it is made in is already recorded (by the policy
+        # or by an earlier explicit call) - before AND after completion
+        seen_manual = {}
         for k, cnt in v["manual"]:
-            pass
+            before = seen_manual.get(k, counts[k])
+            already = (k in rec_steps) or (k in seen_manual)
+            ok = cnt == before + (0 if already else 1)
+            where = "after completion" if (done_at is not None and k >= done_at) else "before completion"
+            rec.oblig("explicit sample() at step %d (%s) records exactly one state unless that step is already recorded" % (k, where), "holds" if ok else "violated",
+                      "records before / after the call: %d / %d, step already recorded: %s" % (before, cnt, already), 0, desc)
+            if not ok:
+                rec.violation("sampling-explicit-call:%s" % ("after" if where.startswith("after") else "before"),
+                              "an explicit sample() call %s did not record exactly one state (%s)" % (where, desc), {"structure": desc, "step": k, "before": before, "after": cnt},
+                              replayed=replay_explicit_sample(option, kind))
+            seen_manual[k] = cnt
         ts = [I.toreal(x) for x in v["ts"]]
         if len(ts) != v["n"] or len(v["data"]) != v["n"] * v["ns"] * v["nc"]:
             rec.oblig("one time per sample; nsamples*nspecies*ncells data values", "violated", "", 0, desc)
@@ -308,6 +320,35 @@ def audit_sampling_real(option, kind, policy, seeds=(1, 2, 3), dt=0.125):
             if bad:
                 out.append({"seed": seed, "requested": req, "t_max": tmax, "step_times": T[:9], "record_times": rt, "problem": bad})
     return out
+
+
+def replay_explicit_sample(option, kind):
+    """real build: sampling disabled, run to completion (and one iteration more), explicit sample(): exactly one record, taken at the final time"""
+    try:
+        from .glue import real_engine
+        from .enginelegs import make_script
+        from . import catalogue
+        system = catalogue.build("AB_rev", ("grid", 2, 1, 1, 0) if kind == "grid" else ("graph", "pair"))
+        bad = False
+        for policy in ("no_sampling", "on_t_sample"):
+            sc = make_script(system, option, 0.25, policy=policy, t_sample=(0,), t_max=1.0, isp="none", seed=3)
+            e = real_engine(option)
+            e.setup(sc)
+            n = 0
+            while e.iterate() and n < 100000:
+                n += 1
+            e.iterate()
+            n0 = len(e.get_output().t.value)
+            e.sample()
+            n1 = len(e.get_output().t.value)
+            e.sample()
+            n2 = len(e.get_output().t.value)
+            e.finalize()
+            if n1 != n0 + 1 or n2 != n1:
+                bad = True
+        return bad
+    except Exception:
+        return False
 
 
 def sampling_replays(option, kind, policy):
